@@ -106,13 +106,38 @@ def judge_input(res, cfg, bus, kind, val, n):
 
 # ----------------------------------------------------------------------------- filters / schemes
 
+def ref_width(enum_cls):
+    """Width of a filter enum from its member count alone (parts 103/30x: 8, 16 or 24 filter bits)."""
+    n = len(list(enum_cls))
+    return 8 if n <= 8 else 16 if n <= 16 else 24
+
+
+PRIORS = ["none", "base-width", "generic-query", "wide-first"]
+
+
+def apply_prior(prior):
+    """What the process did with filter enums BEFORE the case under test (the sequences must not depend on it)."""
+    from dali.device import general
+    if prior == "base-width":
+        try:
+            general.InstanceEventFilter.dali_width()
+        except Exception:
+            pass
+    elif prior == "generic-query":
+        from dali.device.sequences import QueryEventFilters
+        from dali.address import DeviceShort, InstanceNumber
+        for ft in (general, general.InstanceEventFilter):
+            bus = D.Bus24([D.Device(short=7, instances=[D.Instance(), D.Instance(filt=0x123456)])])
+            run_sequence(QueryEventFilters(DeviceShort(7), InstanceNumber(1), ft), bus, 60)       # outcome judged nowhere: it is only history
+
+
 def filter_cases(tier):
     from dali.device import pushbutton, occupancy, light
     F16, F24 = user_enums()
     out = []
     for enum_cls, name in ((pushbutton.InstanceEventFilter, "pb"), (occupancy.InstanceEventFilter, "occ"),
                            (light.InstanceEventFilter, "light"), (F16, "F16"), (F24, "F24")):
-        w = enum_cls.dali_width()
+        w = ref_width(enum_cls)
         members = list(enum_cls)
         full = 0
         for m in members:
@@ -146,7 +171,10 @@ def run_setfilter(cfg, enum_cls, ch):
 
 def judge_setfilter(res, cfg, enum_cls, bus, dev, by, kind, val, n):
     case = dict(cfg, t="setfilter", injected=[list(i) for i in bus.injected])
-    w = enum_cls.dali_width() if enum_cls is not None else 8
+    w = ref_width(enum_cls) if enum_cls is not None else 8
+    if enum_cls is not None and enum_cls.dali_width() != w:
+        add_violation(res, f"C13:enum-width:{cfg['enum']}", f"{cfg['enum']}.dali_width() = {enum_cls.dali_width()} for an enum of {len(list(enum_cls))} filter bits "
+                      f"(history: {cfg.get('prior', 'none')})", case)
     mask = (1 << w) - 1
     inst = dev.instances[1]
     if kind != "return":
@@ -320,8 +348,9 @@ def shards(tier):
     out = []
     for r in range(1, 33):
         out.append(("input", r, tier))
-    out.append(("filters", tier))
-    out.append(("qfilters", tier))
+    for prior in PRIORS:
+        out.append(("filters", tier, prior))
+        out.append(("qfilters", tier, prior))
     out.append(("schemes",))
     N = 2 if tier == "quick" else 3
     for k in range(0, N + 1):
@@ -463,9 +492,16 @@ def run_shard(shard):
         sample(res, {"input_resolution": r, "values": len(vals)})
     elif k == "filters":
         tier = shard[1]
-        for name, enum_cls, v in filter_cases(tier):
+        prior = shard[2] if len(shard) > 2 else "none"
+        apply_prior(prior)
+        cases = filter_cases(tier)
+        if prior == "wide-first":
+            cases = cases[::-1]
+        if prior != "none":
+            cases = [c for i, c in enumerate(cases) if c[0] in ("F16", "F24") and i % 7 == 0 or c[0] == "pb" and i % 3 == 0]
+        for name, enum_cls, v in cases:
             for stale in (0x00, 0xFF, 0xA5):
-                cfg = dict(enum=name, value=v, stale=stale, form="obj")
+                cfg = dict(enum=name, value=v, stale=stale, form="obj", prior=prior)
                 b = 1 if (stale == 0xA5 and v % 3 == 0) else 0
                 for ch, obs in explore(lambda c: run_setfilter(cfg, enum_cls, c), bound=b):
                     bus, dev, by, kind, val, n = obs
@@ -492,17 +528,25 @@ def run_shard(shard):
         sample(res, {"filter_cases": len(filter_cases(tier)), "stale_dtr": [0, 255, 0xA5]})
     elif k == "qfilters":
         from dali.device import pushbutton, occupancy, light
+        prior = shard[2] if len(shard) > 2 else "none"
+        apply_prior(prior)
         F16, F24 = user_enums()
-        for fname, ftype in (("pb", pushbutton.InstanceEventFilter), ("pb-module", pushbutton), ("occ", occupancy),
-                             ("light", light.InstanceEventFilter), ("F16", F16), ("F24", F24)):
+        ftypes = [("pb", pushbutton.InstanceEventFilter), ("pb-module", pushbutton), ("occ", occupancy),
+                  ("light", light.InstanceEventFilter), ("F16", F16), ("F24", F24)]
+        if prior == "wide-first":
+            ftypes = ftypes[::-1]
+        for fname, ftype in ftypes:
             enum_cls = getattr(ftype, "InstanceEventFilter", ftype)
-            w = enum_cls.dali_width()
+            w = ref_width(enum_cls)
+            if enum_cls.dali_width() != w:
+                add_violation(res, f"C13:enum-width:{fname}", f"{fname}.dali_width() = {enum_cls.dali_width()} for an enum of {len(list(enum_cls))} filter bits "
+                              f"(history: {prior})", {"t": "queryfilter", "enum": fname, "value": 0, "prior": prior})
             full = 0
             for mbr in enum_cls:
                 full |= int(mbr)
             vals = sorted({0, 1, 0xFF, 0x100, 0xFF00, 0x10000, 0xFF0000, 0xFFFFFF, 0xABCDEF, 0x123456, 0x80, 0x8000, 0x800000})
             for v in vals:
-                cfg = dict(enum=fname, value=v)
+                cfg = dict(enum=fname, value=v, prior=prior)
                 for ch, obs in explore(lambda c: run_queryfilter(cfg, ftype, c), bound=1):
                     bus, kind, val, n = obs
                     case = dict(cfg, t="queryfilter", injected=[list(i) for i in bus.injected])
@@ -642,6 +686,8 @@ def replay(case):
             judge_input(res, cfg, *obs)
     elif t == "setfilter":
         cfg = {k: case[k] for k in ("enum", "value", "stale", "form")}
+        cfg["prior"] = case.get("prior", "none")
+        apply_prior(cfg["prior"])
         enum_cls = None
         for name, ec, v in filter_cases("quick"):
             if name == cfg["enum"]:
@@ -653,7 +699,7 @@ def replay(case):
         for ch, obs in explore(lambda c: run_scan(cfg, c), bound=nf):
             judge_scan(res, cfg, *obs)
     elif t in ("queryfilter", "queryfilter-bad"):
-        return run_shard(("qfilters", "quick"))["violations"]
+        return run_shard(("qfilters", "quick", case.get("prior", "none")))["violations"]
     elif t in ("scheme", "scheme-bad"):
         return run_shard(("schemes",))["violations"]
     else:
